@@ -133,6 +133,51 @@ Fixpoint pdel (i : Z) (t : ptree) : ptree * bool * bool * option nat := match t 
       end
   end.
 
+(* ---- AvlIterator.Next, branches 2 and 3, through the stored pointers ------- *)
+(* the node object with id k (a pointer dereference) *)
+Fixpoint pnode (k : nat) (t : ptree) : option ptree := match t with
+  | PE => None
+  | PN id l _ _ _ r =>
+    if Nat.eqb id k then Some t
+    else match pnode k l with Some x => Some x | None => pnode k r end
+  end.
+Definition pid (t : ptree) : option nat := match t with PE => None | PN id _ _ _ _ _ => Some id end.
+Fixpoint pleftmost (t : ptree) : option (nat * Z) := match t with
+  | PE => None | PN id PE v _ _ _ => Some (id, v) | PN _ l _ _ _ _ => pleftmost l end.
+Fixpoint psize (t : ptree) : nat := match t with PE => O | PN _ l _ _ _ r => S (psize l + psize r) end.
+
+(* for node.Parent != nil && node.Parent.Right != nil && node.Parent.Right == node { node = node.Parent }
+   if node.Parent == nil { node = nil } else { node = node.Parent }
+   outer None = fuel exhausted or dangling pointer *)
+Fixpoint pclimb (fuel : nat) (root : ptree) (k : nat) : option (option (nat * Z)) :=
+  match fuel with
+  | O => None
+  | S f =>
+    match pnode k root with
+    | Some (PN _ _ _ _ par _) =>
+      match par with
+      | None => Some None
+      | Some pk =>
+        match pnode pk root with
+        | Some (PN _ _ pv _ _ pr) =>
+          if (match pid pr with Some rk => Nat.eqb rk k | None => false end)
+          then pclimb f root pk
+          else Some (Some (pk, pv))
+        | _ => None
+        end
+      end
+    | _ => None
+    end
+  end.
+
+(* if node.Right != nil { leftmost of node.Right } else { climb } *)
+Definition psucc (root : ptree) (k : nat) : option (option (nat * Z)) :=
+  match pnode k root with
+  | Some (PN _ _ _ _ _ r) =>
+    match r with PE => pclimb (S (psize root)) root k | _ => Some (pleftmost r) end
+  | _ => None
+  end.
+
 (* AvlTree.Insert / AvlTree.Delete on the root (root.Parent = nil) *)
 Inductive mop := MIns (i : Z) | MDel (i : Z).
 Definition pstep (s : ptree * nat) (o : mop) : ptree * nat := match o with
